@@ -64,6 +64,8 @@ type Contract struct {
 	MapSpecs  map[string]*Clause // assumed property of lookups in a map-typed parameter (key, value, ok)
 	LoopCand  []*Clause // candidate invariants: kept per loop only if inductive (Houdini)
 	Inline    bool
+	ReadonlyArgs []int
+	ReadonlyActuals []int // positions in the call's actual list (receiver first) that are never written
 	AssumeFacets string // facets whose clauses are assumed, not verified, for this function
 	Extern    bool // assumed contract of an external (standard library) function
 	Trusted   bool   // contract assumed, body not verified
@@ -106,7 +108,7 @@ func NewSpecs() *Specs {
 
 var clauseKeywords = map[string]bool{
 	"pred": true, "func": true, "extern": true, "ghost": true, "iface": true, "requires": true, "ensures": true, "preserves": true, "loop": true,
-	"funcparam": true, "mapspec": true, "assumefacet": true, "inline": true, "trusted": true, "opaque": true, "noverify": true, "modifies": true, "pure": true, "arith": true, "axiom": true,
+	"funcparam": true, "mapspec": true, "assumefacet": true, "readonly": true, "inline": true, "trusted": true, "opaque": true, "noverify": true, "modifies": true, "pure": true, "arith": true, "axiom": true,
 }
 
 // LoadSpecs reads every contracts_verif.go under repo (falling back to mirror for packages lacking one).
@@ -298,6 +300,17 @@ func (S *Specs) parseFile(path string) error {
 					cur.FuncParams = map[string]FuncParam{}
 				}
 				cur.FuncParams[f[0]] = FuncParam{Like: short + "." + f[2], Recv: f[4]}
+			case "readonly":
+				// readonly arg0 arg1: implementations never write memory reachable from these arguments (assumed for
+				// external implementations: e.g. io.Writer.Write must not modify the slice, even temporarily)
+				for _, a := range strings.Fields(rest) {
+					var k int
+					if _, err := fmt.Sscanf(a, "arg%d", &k); err == nil {
+						cur.ReadonlyArgs = append(cur.ReadonlyArgs, k)
+					} else if _, err := fmt.Sscanf(a, "#%d", &k); err == nil {
+						cur.ReadonlyActuals = append(cur.ReadonlyActuals, k)
+					}
+				}
 			case "assumefacet":
 				// assumefacet F: clauses of that facet are assumed for this function (not verified); listed in the evidence
 				cur.AssumeFacets += strings.TrimSpace(rest)
